@@ -1,9 +1,9 @@
 package props
 
 import (
-	"time"
 	"bytes"
 	"testing"
+	"time"
 
 	"github.com/tsuna/gohbase/compression/snappy"
 	"github.com/tsuna/gohbase/region"
